@@ -741,21 +741,38 @@ func dressList(t *rapid.T, l *SubList) {
 	}
 }
 
-// sprinkleDress dresses, in every second scenario, four of five lists of the
-// finished scenario (derived lists included), lets every third op be followed
-// by a virtual sleep, and draws whether all updates carry one value.
+// sprinkleDress dresses, in a good third of the scenarios, four of five lists
+// of the finished scenario (derived lists included), lets every third op be
+// followed by a virtual sleep, and draws whether all updates carry one value.
 func sprinkleDress(t *rapid.T, sc *SrvScenario) {
 	if !one(t, 2, "dress-scenario") {
 		return
 	}
 	sc.SameValue = rapid.Bool().Draw(t, "same-value")
+	shortest := uint64(0) // the shortest interval any request of the scenario names
 	for i := range sc.Ops {
 		op := &sc.Ops[i]
 		if op.Kind == "sub" && op.List != nil && !one(t, 5, "plain-list") {
 			dressList(t, op.List)
+			for _, d := range op.List.SubDress {
+				for _, iv := range []uint64{d.Sample, d.Heartbeat} {
+					if iv > 0 && (shortest == 0 || iv < shortest) {
+						shortest = iv
+					}
+				}
+			}
 		}
+	}
+	for i := range sc.Ops {
 		if one(t, 3, "sleep") {
-			op.Sleep = rapid.SampledFrom(dressSleeps).Draw(t, "sleep")
+			// At most 1000 of the shortest interval: a server that did act on an interval
+			// would have to act 1000 times during the sleep, not 10^13 times (the verdict
+			// must come from the oracle, not from a test deadline).
+			d := rapid.SampledFrom(dressSleeps).Draw(t, "sleep")
+			if shortest > 0 && shortest < uint64(d)/1000 {
+				d = int64(shortest * 1000)
+			}
+			sc.Ops[i].Sleep = d
 		}
 	}
 }
